@@ -170,6 +170,7 @@ fn builder_path(ctx: &Ctx) -> SubReport {
     let mut acc = Acc::new();
     let dir = crate::ctx::run_dir().join("c20");
     let _ = std::fs::create_dir_all(&dir);
+    let signer = crate::keys::Key::Ed25519.signer(&ctx.repo);
     let mut cases: Vec<(i64, u32, bool)> = vec![];
     for secs in [-86_400i64 * 366, -2, -1, 0, 1, (1 << 31) - 1, 1 << 31, TWO32 as i64 - 2, TWO32 as i64 - 1, TWO32 as i64, TWO32 as i64 + 1, 1 << 33] {
         for nanos in [0u32, 1, 500_000_000, 999_999_999] {
@@ -191,15 +192,18 @@ fn builder_path(ctx: &Ctx) -> SubReport {
             acc.count("fs-clamped-mtime");
             continue;
         }
+      // the same conversion on every way a package gets finished and whatever was configured before the file is added
+      for variant in ["build", "build_and_sign", "source date far in the future set before with_file"] {
         acc.evals += 1;
-        let case = json!({"kind": "builder", "mtime_secs": secs, "mtime_nanos": nanos});
+        let case = json!({"kind": "builder", "mtime_secs": secs, "mtime_nanos": nanos, "variant": variant});
         let r = catch(|| {
-            rpm::PackageBuilder::new("t", "1", "MIT", "noarch", "s")
-                .compression(rpm::CompressionType::None)
-                .with_file(&p, rpm::FileOptions::new("/f"))
-                .and_then(|b| b.build())
-                .and_then(|pkg| pkg.metadata.get_file_entries())
-                .map(|fe| fe.first().map(|f| f.modified_at.0))
+            let mut b = rpm::PackageBuilder::new("t", "1", "MIT", "noarch", "s").compression(rpm::CompressionType::None);
+            if variant.starts_with("source date") {
+                b = b.source_date(u32::MAX);
+            }
+            let b = b.with_file(&p, rpm::FileOptions::new("/f"))?;
+            let pkg = if variant == "build_and_sign" { b.build_and_sign(signer.clone())? } else { b.build()? };
+            pkg.metadata.get_file_entries().map(|fe| fe.first().map(|f| f.modified_at.0))
         });
         match r {
             Err(pn) => acc.viol(panic_violation("builder", &pn, case.clone())),
@@ -230,10 +234,11 @@ fn builder_path(ctx: &Ctx) -> SubReport {
                 acc.sample(i as u64, || json!({"with_file_mtime": {"secs": secs, "nanos": nanos}, "accepted": res.is_ok()}));
             }
         }
+      }
     }
     let _ = std::fs::remove_dir_all(&dir);
     let _ = ctx;
-    SubReport::new("builder", "A", "with_file on real files whose mtime is −366 d, −2, −1, 0, 1, 2^31−1, 2^31, 2^32−2, 2^32−1, 2^32, 2^32+1, 2^33 s × sub-second {0, 1 ns, 0.5 s, 999 999 999 ns} (skipped where the file system cannot store the mtime): accepted exactly inside 0..2^32 with the whole second recorded in the built package, underflow / overflow reported as such; non-trivial = accepted", acc)
+    SubReport::new("builder", "A", "with_file on real files whose mtime is −366 d, −2, −1, 0, 1, 2^31−1, 2^31, 2^32−2, 2^32−1, 2^32, 2^32+1, 2^33 s × sub-second {0, 1 ns, 0.5 s, 999 999 999 ns} (skipped where the file system cannot store the mtime): each through build(), through build_and_sign() and with a far-future source date configured before with_file: accepted exactly inside 0..2^32 with the whole second recorded in the built package, underflow / overflow reported as such; non-trivial = accepted", acc)
 }
 
 pub fn run(ctx: &Ctx) -> i32 {
